@@ -53,7 +53,7 @@ SPEC = dict(
          "implementation's own per-position scores (None only if every qualifying position was consumed; otherwise an "
          "unconsumed qualifying position with its exact score bits, >= every unconsumed qualifying score); any panic "
          "on a configured input. DIFF: consumed prefix, position and score bits against the extracted binary32 "
-         "model. Non-trivial: as C02, distinct also by the prefix list. Theorems (11): C03_max_after_prefix (any k: no "
+         "model. Non-trivial: as C02, distinct also by the prefix list. Theorems (C03.v, 11): C03_max_after_prefix (any k: no "
          "panic, None iff nothing unconsumed qualifies, else an unconsumed qualifying position with its exact score "
          "that dominates every unconsumed non-NaN score; the largest index among the maxima when no hit was buffered), "
          "C03_max_none_iff, C03_max_is_maximum (k = 0), C03_max_block_independent (k = 0: the answer, position "
@@ -64,9 +64,16 @@ SPEC = dict(
          "C08_scale_monotone_f32 and the sign of the factor, clear since the repair of F14b), "
          "C03_concrete_max_well_conditioned / C03_concrete_max_wc_checked (NO numeric hypothesis left for matrices with "
          "finite non-wildcard cells that satisfy coq/disc's executable conditioning predicate, via DiscBridge.v; the "
-         "driver evaluates the predicate as wc_input on every lost maximum). The corpus holds boundary "
+         "driver evaluates the predicate as wc_input on every lost maximum). "
+         "C03Source.v (5 theorems: C03_source_model_eq, C03_source_concrete_eq, C03_source_max_after_prefix, "
+         "C03_source_concrete_max_wc_checked, C03_source_fields_matter: 13 single-field deviations of max() violate the property on "
+         "the toy instance, 3 order/pruning-only deviations do not) restates the property for the scanner parameterised by the "
+         "statement skeleton that translate/scan_skel.py re-reads from scan.rs on every run (coq/scan/GenScan.v). Prefixes (round 3): "
+         "k = number of hits of the first one / two blocks, -1, +1 (max() with an empty buffer at a block boundary / one buffered hit "
+         "left); `swmax=`: setters called between the k calls of next() and max() (tie + weak judge in the driver, no theorem). "
+         "The corpus holds boundary "
          "cases, the inputs on which the deliberate mutations of Scanner::max and the seeded changes were caught, the "
-         "witnesses of the repaired defect F14b (must pass) and the witness of known finding F14-c03.",
+         "witnesses of the repaired defect F14b (must pass) and the witness of known finding F14-c03; corpus/C03/round3.txt and round3_mutation_witnesses.txt.",
     trusted_base=c02.COMMON_TRUSTED,
     assumptions=[
         "conservative (property C08), for every bound t the scanner derives (the threshold and the score of each "
